@@ -95,6 +95,8 @@ struct PState {
 	hash: Option<PaymentHash>,
 	/// id of an upstream update carrying the payment preimage that is still in flight
 	u_preimage_pending: Option<u64>,
+	/// scripted scenarios: the next off-chain update is returned InProgress
+	force_async_once: bool,
 }
 struct ScriptedPersister {
 	active: bool,
@@ -114,6 +116,7 @@ impl ScriptedPersister {
 				names: HashMap::new(),
 				hash: None,
 				u_preimage_pending: None,
+				force_async_once: false,
 			}),
 			trace,
 		}
@@ -166,6 +169,9 @@ impl Persist<TestChannelSigner> for ScriptedPersister {
 			Some(_) => {
 				// the Watch contract: never Completed while an earlier update of the channel is in flight
 				if inflight > 0 {
+					ChannelMonitorUpdateStatus::InProgress
+				} else if st.force_async_once {
+					st.force_async_once = false;
 					ChannelMonitorUpdateStatus::InProgress
 				} else if !st.force_sync && st.rng.below(100) < st.p_async {
 					ChannelMonitorUpdateStatus::InProgress
@@ -252,6 +258,7 @@ struct Params {
 	cltv_skew: i64,
 	sync_sched: bool,
 	focus: bool,
+	script: u8,
 }
 
 fn gen_params(rng: &mut Rng) -> Params {
@@ -292,6 +299,7 @@ fn gen_params(rng: &mut Rng) -> Params {
 		cltv_skew,
 		sync_sched: chaos == 0,
 		focus: rng.below(2) == 0,
+		script: 0,
 	}
 }
 
@@ -910,13 +918,15 @@ impl<'a> World<'a> {
 // ------------------------------------------------------------------------------------------------
 // restart of B from durable state
 // ------------------------------------------------------------------------------------------------
-fn reload_b<'a>(w: &mut World<'a>, rng: &mut Rng, node_cfgs: &'a Vec<NodeCfg<'a>>) -> bool {
+fn reload_b<'a>(
+	w: &mut World<'a>, rng: &mut Rng, node_cfgs: &'a Vec<NodeCfg<'a>>, scripted_latest: bool,
+) -> bool {
 	// B goes down: both peers see the disconnection
 	w.disconnect(A, B);
 	w.disconnect(B, C);
 	// the node persists its manager whenever it is told to; at a crash the last written copy is what
 	// exists. With probability 1/2 the crash falls right after such a write.
-	if w.nodes[B].node.get_and_clear_needs_persistence() && rng.below(2) == 0 {
+	if !scripted_latest && w.nodes[B].node.get_and_clear_needs_persistence() && rng.below(2) == 0 {
 		w.persist_manager();
 	}
 	// choose, per monitor, a durable version: any snapshot at least as new as the newest one that was
@@ -930,7 +940,7 @@ fn reload_b<'a>(w: &mut World<'a>, rng: &mut Rng, node_cfgs: &'a Vec<NodeCfg<'a>
 			let snaps = &st.snaps[chan];
 			let lo = snaps.iter().rposition(|s| s.complete).unwrap_or(0);
 			let hi = snaps.len() - 1;
-			let pick = match rng.below(10) {
+			let pick = match if scripted_latest { 0 } else { rng.below(10) } {
 				0..=3 => hi,
 				4..=6 => lo,
 				_ => lo + rng.below((hi - lo + 1) as u64) as usize,
@@ -978,8 +988,19 @@ fn reload_b<'a>(w: &mut World<'a>, rng: &mut Rng, node_cfgs: &'a Vec<NodeCfg<'a>
 	for m in monitors.iter() {
 		let h0 = m.current_best_block().height;
 		for (blk, h) in blocks.iter() {
-			if *h > h0 {
-				let txdata: Vec<_> = blk.txdata.iter().enumerate().collect();
+			let txdata: Vec<_> = blk.txdata.iter().enumerate().collect();
+			if *h == h0 && h0 > 0 {
+				// the write may have fallen between best_block_updated and transactions_confirmed of
+				// this very block: a restarting node re-checks the transactions of its tip
+				m.transactions_confirmed(
+					&blk.header,
+					&txdata,
+					*h,
+					cfg.tx_broadcaster,
+					cfg.fee_estimator,
+					cfg.logger,
+				);
+			} else if *h > h0 {
 				m.block_connected(&blk.header, &txdata, *h, cfg.tx_broadcaster, cfg.fee_estimator, cfg.logger);
 			}
 		}
@@ -1049,8 +1070,10 @@ fn reload_b<'a>(w: &mut World<'a>, rng: &mut Rng, node_cfgs: &'a Vec<NodeCfg<'a>
 	w.reloads += 1;
 	// the freshly loaded manager is what a later crash would find unless it is written again
 	for (blk, h) in blocks.iter() {
-		if *h > mgr_h0 {
-			let txdata: Vec<_> = blk.txdata.iter().enumerate().collect();
+		let txdata: Vec<_> = blk.txdata.iter().enumerate().collect();
+		if *h == mgr_h0 && mgr_h0 > 0 {
+			new_mgr.transactions_confirmed(&blk.header, &txdata, *h);
+		} else if *h > mgr_h0 {
 			new_mgr.transactions_confirmed(&blk.header, &txdata, *h);
 			new_mgr.best_block_updated(&blk.header, *h);
 		}
@@ -1070,6 +1093,98 @@ fn run_scenario(seed: u64, index: u64, trace: TraceRef) {
 		rng.next();
 	}
 	let p = gen_params(&mut rng);
+	run_with_params(p, rng, trace);
+}
+
+/// Scripted scenario 1 (stale manager written while the upstream revoke_and_ack's monitor update was
+/// in flight): see design/C02.md, finding F1.
+fn script1_params() -> Params {
+	Params {
+		amt_msat: 50_000_000,
+		c_behav: CBehav::Claim,
+		a_force_close: false,
+		p_async: 0,
+		p_disc: 0,
+		p_reload: 0,
+		max_reloads: 0,
+		p_mgr_persist: 0,
+		steps: 0,
+		prop: 1000,
+		base: 1000,
+		delta: 72,
+		fee_skew: 0,
+		cltv_skew: 0,
+		sync_sched: true,
+		focus: false,
+		script: 1,
+	}
+}
+
+fn script1<'a>(w: &mut World<'a>, rng: &mut Rng, node_cfgs: &'a Vec<NodeCfg<'a>>) -> bool {
+	let mut step = 2;
+	let mut tick = |w: &mut World<'a>| {
+		step += 1;
+		w.set_step(step);
+	};
+	// A -> B: add, commitment_signed; B answers; A revokes
+	tick(w);
+	w.deliver(A, B);
+	tick(w);
+	w.deliver(A, B);
+	tick(w);
+	w.deliver(B, A);
+	tick(w);
+	w.deliver(B, A);
+	// A's revoke_and_ack makes the HTLC irrevocable at B; its monitor update stays in flight ...
+	w.persister_b.st.lock().unwrap().force_async_once = true;
+	tick(w);
+	w.deliver(A, B);
+	// ... and that is the moment the manager happens to be written
+	tick(w);
+	w.persist_manager();
+	tick(w);
+	for (chan, id) in w.pending_updates_b() {
+		w.complete_update(chan, id);
+	}
+	w.after_action();
+	// B forwards; the whole commitment dance with C completes; C could claim but has not yet
+	for _ in 0..3 {
+		tick(w);
+		w.process_forwards(B);
+	}
+	for _ in 0..12 {
+		tick(w);
+		if !w.queues[B][C].is_empty() {
+			w.deliver(B, C);
+		} else if !w.queues[C][B].is_empty() {
+			w.deliver(C, B);
+		}
+	}
+	tick(w);
+	w.process_forwards(C);
+	// B crashes before its manager is written again; every monitor write has reached the disk
+	tick(w);
+	if !reload_b(w, rng, node_cfgs, true) {
+		return false;
+	}
+	// B comes back, talks to A
+	tick(w);
+	w.reconnect(A, B);
+	for _ in 0..40 {
+		tick(w);
+		w.process_forwards(B);
+		w.process_events(B);
+		if !w.queues[A][B].is_empty() {
+			w.deliver(A, B);
+		} else if !w.queues[B][A].is_empty() {
+			w.deliver(B, A);
+		}
+		w.process_events(A);
+	}
+	true
+}
+
+fn run_with_params(p: Params, mut rng: Rng, trace: TraceRef) {
 	trace.lock().unwrap().rec("PARAMS", format!("{:?}", p).replace(' ', ""));
 
 	let chanmon_cfgs: &'static Vec<TestChanMonCfg> = Box::leak(Box::new(create_chanmon_cfgs(3)));
@@ -1206,10 +1321,20 @@ fn run_scenario(seed: u64, index: u64, trace: TraceRef) {
 	w.rec("PAY", format!("amt={} hash={} ok={}", p.amt_msat, short(&hash.0), sent.is_ok()));
 	w.after_action();
 
+	if p.script == 1 {
+		if !script1(&mut w, &mut rng, node_cfgs) {
+			w.rec("END", "reload_failed=1".to_string());
+			std::mem::forget(w);
+			return;
+		}
+	}
 	// ---------------- random phase
 	let mut a_fc_done = !p.a_force_close;
 	let a_fc_step = 5 + rng.below(p.steps.max(6) - 5);
 	for step in 2..(2 + p.steps) {
+		if p.script != 0 {
+			break;
+		}
 		w.set_step(step);
 		if w.a_result != "none"
 			&& w.pending_updates_b().is_empty()
@@ -1292,7 +1417,7 @@ fn run_scenario(seed: u64, index: u64, trace: TraceRef) {
 			6 => w.disconnect(pick.2, pick.3),
 			7 => w.reconnect(pick.2, pick.3),
 			_ => {
-				if !reload_b(&mut w, &mut rng, node_cfgs) {
+				if !reload_b(&mut w, &mut rng, node_cfgs, false) {
 					w.rec("END", "reload_failed=1".to_string());
 					std::mem::forget(w);
 					return;
@@ -1303,7 +1428,7 @@ fn run_scenario(seed: u64, index: u64, trace: TraceRef) {
 
 	// ---------------- drain: everything that can still happen does happen
 	w.persister_b.st.lock().unwrap().force_sync = true;
-	let mut step = 2 + p.steps;
+	let mut step = if p.script != 0 { 200 } else { 2 + p.steps };
 	let mut quiet_rounds = 0;
 	let mut blocks_mined = 0u32;
 	for _round in 0..2000 {
@@ -1450,6 +1575,25 @@ fn main() {
 			for i in first..first + count {
 				run_one(seed, i, &mut out);
 			}
+		},
+		"script1" => {
+			// h_fwd script1 <seed> <ignored> <outfile>
+			let mut out = std::fs::File::create(&args[4]).unwrap();
+			let trace: TraceRef = Arc::new(Mutex::new(Trace { scen: 0, step: 0, lines: Vec::new() }));
+			let t2 = trace.clone();
+			let res = panic::catch_unwind(AssertUnwindSafe(|| run_with_params(script1_params(), Rng(seed), t2)));
+			let mut tr = match trace.lock() {
+				Ok(g) => g,
+				Err(p) => p.into_inner(),
+			};
+			if res.is_err() {
+				let msg = LAST_PANIC.with(|m| m.borrow().clone());
+				tr.rec("PANIC", format!("msg={}", msg.replace('\n', " ").replace(' ', "_")));
+			}
+			for l in tr.lines.iter() {
+				writeln!(out, "{}", l).unwrap();
+			}
+			writeln!(out, "T 0 0 DONE -").unwrap();
 		},
 		_ => {
 			let index: u64 = args[3].parse().unwrap();
